@@ -56,7 +56,7 @@ Proof.
   intros e lp fa fn st st' HF Hc [pre [sc [k [outer [cur [Hs [Hp Hw]]]]]]].
   destruct (esim_all dummy_pl dummy_orc e lp fa fn st st' pre sc k outer cur HF Hs Hp Hw Hc) as [ce [nb [k' [CF _]]]].
   split.
-  - exists pre, sc, k', outer, cur. split; [exact (cf4_syms _ _ _ _ _ _ _ _ _ CF)|]. split; [exact Hp|exact (cf4_wf _ _ _ _ _ _ _ _ _ CF)].
+  - exists pre, sc, k', outer, cur. split; [exact (cf3_syms _ _ _ _ _ _ _ _ _ CF)|]. split; [exact Hp|exact (cf3_wf _ _ _ _ _ _ _ _ _ CF)].
   - rewrite (cfacts3_len _ _ _ _ _ _ _ _ _ CF). pose proof (zlength_nonneg _ ce). lia.
 Qed.
 
@@ -66,7 +66,7 @@ Proof.
   intros b lp fa fn st st' HF Hc [pre [sc [k [outer [cur [Hs [Hp Hw]]]]]]].
   destruct (bv_sim dummy_pl dummy_orc b (lsim_all dummy_pl dummy_orc b) lp fa fn st st' pre sc k outer cur HF Hs Hp Hw Hc) as [ce [nb [k' [CF _]]]].
   split.
-  - exists pre, sc, k', outer, cur. split; [exact (cf4_syms _ _ _ _ _ _ _ _ _ CF)|]. split; [exact Hp|exact (cf4_wf _ _ _ _ _ _ _ _ _ CF)].
+  - exists pre, sc, k', outer, cur. split; [exact (cf3_syms _ _ _ _ _ _ _ _ _ CF)|]. split; [exact Hp|exact (cf3_wf _ _ _ _ _ _ _ _ _ CF)].
   - rewrite (cfacts3_len _ _ _ _ _ _ _ _ _ CF). pose proof (zlength_nonneg _ ce). lia.
 Qed.
 
@@ -77,7 +77,7 @@ Proof.
   assert (Forall (esim dummy_pl dummy_orc) args) as Ha by (apply Forall_forall; intros x _; apply esim_all).
   destruct (asim_all dummy_pl dummy_orc args Ha fa fn st st' pre sc k outer cur HF Hs Hp Hw Hc) as [ce [nb [k' [CF _]]]].
   split.
-  - exists pre, sc, k', outer, cur. split; [exact (cf4_syms _ _ _ _ _ _ _ _ _ CF)|]. split; [exact Hp|exact (cf4_wf _ _ _ _ _ _ _ _ _ CF)].
+  - exists pre, sc, k', outer, cur. split; [exact (cf3_syms _ _ _ _ _ _ _ _ _ CF)|]. split; [exact Hp|exact (cf3_wf _ _ _ _ _ _ _ _ _ CF)].
   - rewrite (cfacts3_len _ _ _ _ _ _ _ _ _ CF). pose proof (zlength_nonneg _ ce). lia.
 Qed.
 
@@ -87,8 +87,8 @@ Proof.
   intros l lp fa fn st st' HF Hc [pre [sc [k [outer [cur [Hs [Hp Hw]]]]]]].
   destruct (lsim_all dummy_pl dummy_orc l lp fa fn st st' pre sc k outer cur HF Hs Hp Hw Hc) as [ce [nb [k' [[CF _] _]]]].
   split.
-  - exists pre, sc, k', outer, (cur ++ decl_names3 l). split; [exact (cf4_syms _ _ _ _ _ _ _ _ _ CF)|].
-    split; [exact Hp|exact (cf4_wf _ _ _ _ _ _ _ _ _ CF)].
+  - exists pre, sc, k', outer, (cur ++ decl_names3 l). split; [exact (cf3_syms _ _ _ _ _ _ _ _ _ CF)|].
+    split; [exact Hp|exact (cf3_wf _ _ _ _ _ _ _ _ _ CF)].
   - rewrite (cfacts3_len _ _ _ _ _ _ _ _ _ CF). pose proof (zlength_nonneg _ ce). lia.
 Qed.
 
@@ -253,7 +253,7 @@ Proof.
       cbn [s_scope s_index]. split; [reflexivity|lia]. }
     destruct (function_tail_sim dummy_pl dummy_orc ps body sym (lsim_all dummy_pl dummy_orc body) HFb st1 st' pre sc k outer cur Hs Hp Hw Hsym Hc)
       as [ce [CF _]].
-    exists pre, sc, k, outer, cur. split; [exact (cf4_syms _ _ _ _ _ _ _ _ _ CF)|]. split; [exact Hp|exact (cf4_wf _ _ _ _ _ _ _ _ _ CF)].
+    exists pre, sc, k, outer, cur. split; [exact (cf3_syms _ _ _ _ _ _ _ _ _ CF)|]. split; [exact Hp|exact (cf3_wf _ _ _ _ _ _ _ _ _ CF)].
   - exists st4. split; [exact H4|]. split; [lia|]. split; [exact L4|exact L5].
 Qed.
 
